@@ -149,7 +149,7 @@ func (w *loopWalker) peek(n ast.Node) string {
 
 // calls that are irrelevant to the model (bookkeeping, logging, pure constructors)
 var loopIgnored = map[string]bool{
-	"atomic.AddInt32": true, "atomic.LoadInt32": true, "atomic.LoadUint32": true,
+	"atomic.LoadInt32": true, "atomic.LoadUint32": true,
 	"cs.pendingWg.Add": true, "cs.pendingWg.Done": true, "cs.server.log.Printf": true,
 	"newErr": true, "cs.handleRequests": true,
 }
@@ -192,6 +192,11 @@ func (w *loopWalker) call(c *ast.CallExpr) error {
 	}
 	if ev, ok := loopEvents[name]; ok {
 		w.emit(ev)
+		return nil
+	}
+	if name == "atomic.AddInt32" {
+		// the idle-receiver count decides whether a new receiver is spawned
+		w.emit(w.src(c))
 		return nil
 	}
 	if loopIgnored[name] {
